@@ -226,6 +226,7 @@ class Ctx:
             if f.startswith("viol-"):
                 os.remove(os.path.join(self.outdir, f))
         self.nviol_files = 0
+        self.sigcount = {}
         self.notes = []
 
     @property
@@ -256,9 +257,11 @@ class Ctx:
                 c = self.known_hit.get(k["signature"], 0)
                 self.known_hit[k["signature"]] = c + 1
                 return False
-        if len(self.viol) < 200:
+        n = self.sigcount.get(sig, 0)
+        self.sigcount[sig] = n + 1
+        if n < 3 and len(self.sigcount) <= 80:
             path = None
-            if self.nviol_files < 25:
+            if self.nviol_files < 60:
                 self.nviol_files += 1
                 path = os.path.join(self.outdir, "viol-%d.json" % self.nviol_files)
                 with open(path, "w") as f:
@@ -275,7 +278,7 @@ class Ctx:
         cov["known_findings_hit"] = self.known_hit
         ev = {"property_id": self.pid, "tier": self.tier, "seed": self.seed, "level": self.level,
               "coverage": cov, "assumptions": self.assumptions, "wall_s": round(wall, 2),
-              "violations": len(self.viol)}
+              "violations": sum(self.sigcount.values())}
         os.makedirs(EVID, exist_ok=True)
         with open(os.path.join(EVID, self.pid + ".json"), "w") as f:
             json.dump(ev, f, indent=1, default=str)
@@ -289,7 +292,7 @@ class Ctx:
                 continue
             seen.add(sig)
             print("VIOLATION property=%s replay=%s" % (self.pid, path or os.path.join(self.outdir, "viol-1.json")))
-            print("   signature: %s" % sig)
+            print("   signature: %s (%d occurrences)" % (sig, self.sigcount.get(sig, 1)))
             print("   " + text.replace("\n", "\n   ")[:1500])
         print("%s %s: %s in %.1fs; %d violation(s), %d known-finding signature(s) hit" % (
             self.pid, self.tier, "FAIL" if self.viol else "ok", wall, len(self.viol), len([1 for v in self.known_hit.values() if v])))
